@@ -5,11 +5,16 @@ CONSTANTS
   FactoryFF <- DefFactoryFF
   FFSeq <- DefFFSeq
   CFSeq <- DefCFSeq
+  Ops <- AllOps
+  Modes <- ModesTS
   NT = 3
   NS = 1
   MaxV = 4
   MaxFuncs = 2
   MaxSuite = 2
+  MaxDepth = 2
+  MaxTop = 2
+  ExtraT = 1
 SPECIFICATION Spec
 INVARIANT TypeOK
 INVARIANT NeverStale
